@@ -72,7 +72,7 @@ type c17Req struct {
 	PLen    int      `json:"plen"` // length of the id prefix sent; -1: a prefix matching nothing
 	Title   string   `json:"title,omitempty"`
 	Msg     string   `json:"msg,omitempty"`
-	Files   []int    `json:"files,omitempty"` // 1..3: stored blobs, -1: not a hash
+	Files   []int    `json:"files,omitempty"` // 1..3: stored blobs, 9: a well-formed hash of no stored blob, -1: not a hash
 	Added   []string `json:"added,omitempty"`
 	Removed []string `json:"removed,omitempty"`
 	Repo    string   `json:"repo,omitempty"`    // "" | "__default" | anything else (unknown)
@@ -246,6 +246,7 @@ type c17Concrete struct {
 	Vars    map[string]interface{} `json:"vars,omitempty"`
 	Prefix  string                 `json:"prefix"`
 	WF      bool                   `json:"wf"`
+	NoBlob  bool                   `json:"no_blob,omitempty"` // a file hash was sent that names no stored blob
 	RepoOK  bool                   `json:"repo_ok"`
 	Known   bool                   `json:"known"`
 	Content int                    `json:"content,omitempty"`
@@ -363,6 +364,9 @@ func (s *c17Sess) fileIndex(h string) int {
 		if string(x) == h {
 			return i + 1
 		}
+	}
+	if h == c17MissingHash {
+		return c17MissingFile
 	}
 	return 0
 }
@@ -533,6 +537,9 @@ func (s *c17Sess) value(name string, t *c17TypeRef, req c17Req, con *c17Concrete
 			for _, f := range req.Files {
 				if f >= 1 && f <= len(s.files) {
 					r = append(r, string(s.files[f-1]))
+				} else if f == c17MissingFile {
+					r = append(r, c17MissingHash)
+					con.NoBlob = true
 				} else {
 					r = append(r, "not-a-hash")
 					con.WF = false
@@ -1362,8 +1369,8 @@ func (c17Driver) Run(raw json.RawMessage) Case {
 					}
 					files = append(files, f)
 				}
-				reqT = fmt.Sprintf("RMut %s {| a_wf := %s; a_repo_ok := %s; a_prefix := %s; a_title := %s; a_msg := %s; a_files := %s; a_added := %s; a_removed := %s; a_fresh := %s |} %s",
-					m, coqBool(so.Con.WF), coqBool(so.Con.RepoOK), c17Text(so.Con.Prefix), ren.text(so.Req.Title), ren.text(so.Req.Msg),
+				reqT = fmt.Sprintf("RMut %s {| a_wf := %s; a_files_ok := %s; a_repo_ok := %s; a_prefix := %s; a_title := %s; a_msg := %s; a_files := %s; a_added := %s; a_removed := %s; a_fresh := %s |} %s",
+					m, coqBool(so.Con.WF), coqBool(!so.Con.NoBlob), coqBool(so.Con.RepoOK), c17Text(so.Con.Prefix), ren.text(so.Req.Title), ren.text(so.Req.Msg),
 					c17NList(files), ren.texts(so.Req.Added), ren.texts(so.Req.Removed), ren.idList(so.New), u)
 			} else {
 				reqT = "RUnknown " + u
@@ -1504,7 +1511,11 @@ func c17GenSetup(r *Rand) []c17SBug {
 	return bugs
 }
 
-var c17Variants = []string{"valid", "valid", "valid-rich", "bad-target", "empty-prefix", "short-prefix", "invalid-value", "bad-hash", "omit", "null", "bad-repo", "named-repo"}
+var c17Variants = []string{"valid", "valid", "valid-rich", "bad-target", "empty-prefix", "short-prefix", "invalid-value", "bad-hash", "missing-file", "omit", "null", "bad-repo", "named-repo"}
+
+// a well-formed hash naming no object of the repository: the request passes the schema, the file can't be recorded
+const c17MissingFile = 9
+const c17MissingHash = "abababababababababababababababababababab"
 
 func c17GenReq(r *Rand, field, authMode, variant string) c17Req {
 	q := c17Req{Kind: "mutation", Field: field, Auth: authMode, Var: variant, Bug: r.Intn(6), Comment: r.Intn(6),
@@ -1536,6 +1547,8 @@ func c17GenReq(r *Rand, field, authMode, variant string) c17Req {
 		q.Added, q.Removed = labels(r.Intn(2), c17Labels[6:]), nil
 	case "bad-hash":
 		q.Files = []int{1, -1}
+	case "missing-file":
+		q.Files = [][]int{{c17MissingFile}, {1, c17MissingFile}, {c17MissingFile, 2}}[r.Intn(3)]
 	case "omit":
 		q.Omit = true
 	case "null":
